@@ -257,7 +257,7 @@ Proof.
       eexists _, _, _. split; [reflexivity|]. split; [exact A|]. split; [exact B|].
       split; [unfold hbok; rewrite C; exact Hhb|].
       cbn [h_name h_link h_pax with_size_name set_pax h1].
-      split; [apply add_suffix_plain; exact HP|]. split; [exact Hk|].
+      split; [destruct (0 <? enc); [apply add_suffix_plain; exact HP|reflexivity]|]. split; [exact Hk|].
       split; [apply usize_ok_put|]. split; [paxs; exact Apx|]. split; [paxs; exact Vpx|paxs; exact Rpx].
     - eexists _, _, _. split; [reflexivity|]. repeat split; try assumption; reflexivity. }
   destruct ENC as (h2 & enc & s1 & -> & T1 & T2 & T3 & N2 & L2 & U2 & A2 & V2 & R2).
